@@ -114,10 +114,11 @@ def tWriteLayer (l : Layer) (le : LayerEnv) (ty : Option LTypes) (m : Option Met
 /-- the callback's own writes into the layer directory -/
 def applyFiles (d : Dir) (fs : List (Bytes × Node)) : Dir := fs.foldl (fun d f => d.set f.1 f.2) d
 
-/-- the re-read that ends `handle_create_layer`, `handle_update_layer` and the `Keep` arm -/
+/-- the re-read that ends `handle_create_layer`, `handle_update_layer` and the `Keep` arm; the returned layer data
+carries the stored metadata decoded as the layer's metadata type -/
 def tReread (lp : Bytes) (l : Layer) (mt : MetaT) (log : List TCall) : Layer × TOut × List TCall :=
   match tReadLayer lp l mt with
-  | (l1, .some m le) => (l1, .data m le, log)
+  | (l1, .some m le) => (l1, .data (viewAs mt m) le, log)
   | (l1, .none) => (l1, .err .missingLayer, log)
   | (l1, .parseErr) => (l1, .err .genericMeta, log)
   | (l1, .ioErr) => (l1, .err .io, log)
